@@ -39,7 +39,8 @@ RULES_DRIVER = "vf.props.c14_rules"
 EVENT_NAMES = [
     "tr_s1", "tr_s2", "tr_s3", "tr_x11", "tr_x18", "tr_rescript",
     "opt_reshape2", "opt_reshape_az", "opt_fold_o11", "opt_fold_o18", "opt_padconv", "opt_matreshape", "opt_nearmiss", "opt_mixed",
-    "rw_checkraises", "rw_patternraises", "rw_alt", "rw_rms", "fold_reuse", "convert", "pass_plain",
+    "rw_checkraises", "rw_patternraises", "rw_alt", "rw_rms", "fold_reuse", "pass_seq_o11", "pass_seq_o17", "pass_seq_o18",
+    "convert", "pass_plain",
     "eager_raise", "use_persist", "proto_repeat", "glob_mut", "use_g",
 ]
 NAMES = ["alpha", "beta", "acc", "run", "p", "q", "r", "tot"]  # variable names the scripts put into sets
